@@ -230,6 +230,15 @@ class VM:
             except JSRangeError as e:
                 # Convert Python JSRangeError to JavaScript RangeError
                 self._handle_python_exception("RangeError", str(e))
+            except (TimeLimitError, MemoryLimitError):
+                raise
+            except JSError as e:
+                # Any other engine error raised while running (a SyntaxError from
+                # eval, new Function, JSON.parse or new RegExp, an error from a
+                # nested evaluation) is catchable by an enclosing try/catch
+                if not self.exception_handlers:
+                    raise
+                self._handle_python_exception(e.name, e.message)
 
             # Check if frame was popped (return)
             if not self.call_stack:
